@@ -128,6 +128,24 @@ fn subtree_has_count_filter(n: &Node) -> bool {
 }
 
 
+/// The shape that makes the engine truncate a fold to its first elements (`get_min_fold_count_limit`): a
+/// fold whose count is filtered with `>=` / `>` against a variable. Known defects F-23 / F-29 live there;
+/// requests of such queries get an `(exec …)` partner so that `./check` can classify a Spec mismatch as
+/// `spec-mismatch:fold-limit-truncation`.
+fn has_min_fold_trigger(q: &Query) -> bool {
+    let mut found = false;
+    for_each_node(&q.node, &mut |x| {
+        for f in &x.fields {
+            if let Field::Edge { kind: Kind::Fold(fds), .. } = f {
+                if fds.iter().any(|d| matches!(d, FDir::CountFilter(Op::Ge | Op::Gt, Arg::Var(_)))) {
+                    found = true;
+                }
+            }
+        }
+    });
+    found
+}
+
 fn output_names(q: &Query) -> Vec<String> {
     let mut out = vec![];
     for_each_node(&q.node, &mut |x| {
@@ -510,6 +528,10 @@ struct Planned {
 }
 
 const BASE: usize = usize::MAX;
+/// (query, dataset) pairs whose original result has more rows than this are not transformed at all …
+const MAX_BASE_ROWS: usize = 1500;
+/// … and a recursion depth is raised only when the original result has at most this many rows.
+const MAX_BASE_ROWS_RECURSE: usize = 150;
 
 // ------------------------------------------------------------------------------------------------
 // the property
@@ -524,7 +546,7 @@ pub struct C23 {
 
 fn world_knobs(tier: Tier) -> WorldKnobs {
     WorldKnobs {
-        n_schemas: if tier == Tier::Quick { 22 } else { 50 },
+        n_schemas: if tier == Tier::Quick { 22 } else { 120 },
         n_datasets: 2,
         n_queries: 10,
         query: QueryKnobs::clean(),
@@ -1043,7 +1065,7 @@ impl Prop for C23 {
         "C23"
     }
     fn rule(&self) -> &'static str {
-        "per seed: generated worlds as for C01 (schemas x 2 datasets x ~10 type-directed queries accepted by the real frontend and argument validation; generator setting QueryKnobs::clean(), i.e. without the triggers of the known defects F-4/F-5/F-9/F-10). For every accepted query one randomly chosen applicable site per transformation: add-filter (a type-correct filter with a fresh variable drawn mostly from the property's values in the dataset, any operator, on a property outside folds: rows' <+ rows), partition (outside folds and optional scopes, an operator with complement: rows(q) is a merge of rows(q+f) and rows(q+not f)), eq-oneof (`= $x` against `one_of [$x]` on any property, folds included, half of the operands in the other integer representation: equal rows), recurse-raise / recurse-lower (depth d -> d+1|d+2, d-1 outside folds: sublist), make-optional (a plain edge outside folds; skipped when a fold-count filter is below it: F-9), rename-outputs / rename-tags (a permutation of the existing names or fresh names in reverse order), reorder-props (swap of two adjacent selections at least one of which is a property, anywhere: identical row sequence), reorder-edges (swap of two adjacent edges outside folds: equal multisets), param-edge (an edge with a declared parameter, plain or folded, rewritten to another parameter value plus `id @filter(<)` in a dataset whose adjacency for the original parameter tuple is the filtered adjacency of the new one: equal rows). Transformed queries rejected by the frontend (e.g. a tag used before its definition after a swap) are counted and skipped. Every original and transformed query is sent per dataset as (spec-exec ...) [model = Lean Spec]; the relation is checked on the engine's rows. A case is non-trivial (nt:<kind>) when the left query returned at least one row on that dataset; nt:<kind>:strict when the transformation changed the row sequence."
+        "per seed: generated worlds as for C01 (schemas x 2 datasets x ~10 type-directed queries accepted by the real frontend and argument validation; generator setting QueryKnobs::clean(), i.e. without the triggers of the known defects F-4/F-5/F-9/F-10). For every accepted query one randomly chosen applicable site per transformation: add-filter (a type-correct filter with a fresh variable drawn mostly from the property's values in the dataset, any operator, on a property outside folds: rows' <+ rows), partition (outside folds and optional scopes, an operator with complement: rows(q) is a merge of rows(q+f) and rows(q+not f)), eq-oneof (`= $x` against `one_of [$x]` on any property, folds included, half of the operands in the other integer representation: equal rows), recurse-raise / recurse-lower (depth d -> d+1|d+2, d-1 outside folds: sublist), make-optional (a plain edge outside folds; skipped when a fold-count filter is below it: F-9); (query, dataset) pairs whose original result exceeds 1500 rows are not transformed (150 rows for recurse-raise), counted under skipped_known_defect of `(all)` / `recurse-raise`, rename-outputs / rename-tags (a permutation of the existing names or fresh names in reverse order), reorder-props (swap of two adjacent selections at least one of which is a property, anywhere: identical row sequence), reorder-edges (swap of two adjacent edges outside folds: equal multisets), param-edge (an edge with a declared parameter, plain or folded, rewritten to another parameter value plus `id @filter(<)` in a dataset whose adjacency for the original parameter tuple is the filtered adjacency of the new one: equal rows). Transformed queries rejected by the frontend (e.g. a tag used before its definition after a swap) are counted and skipped. Every original and transformed query is sent per dataset as (spec-exec ...) [model = Lean Spec] (queries with a fold-count filter >=/> on a variable additionally as (exec ...) [model = Interp over the real IR], so that a Spec mismatch can be classified as the known fold-limit truncation F-23/F-29); the relation is checked on the engine's rows. A case is non-trivial (nt:<kind>) when the left query returned at least one row on that dataset; nt:<kind>:strict when the transformation changed the row sequence."
     }
     fn generate(&self, tier: Tier, rng: &mut Rng) -> Vec<Case> {
         let (worlds, stats) = generate_worlds(rng, &world_knobs(tier));
@@ -1055,12 +1077,38 @@ impl Prop for C23 {
                 let planned = self.plan(rng, w, base);
                 for d in 0..w.datasets.len() {
                     let Some(base_req) = w.spec_exec_request(d, base) else { continue };
+                    // size guard: queries whose result on this dataset is huge (nested recursions over a
+                    // dense graph) are not multiplied by a dozen variants
+                    let base_rows = match (w.data_sexp(d, base), guarded(|| {
+                        let data = w.data_sexp(d, base)?;
+                        engine::run::run_query(&w.schema_sexp, &data, &base.gq.text, &base.gq.args)
+                    })) {
+                        (Some(_), Ok(Some(engine::run::Answer::Rows(r)))) => r.len(),
+                        _ => 0,
+                    };
+                    if base_rows > MAX_BASE_ROWS {
+                        self.counters.borrow_mut().bump("(all)", 4);
+                        continue;
+                    }
                     let base_hash = fnv64(&base_req.to_string());
                     let mut tags = feats.clone();
                     tags.push("t:base".into());
                     out.push(Case { request: base_req, tags });
+                    if has_min_fold_trigger(&base.gq.query) {
+                        if let Some(x) = w.exec_request(d, base) {
+                            out.push(Case { request: x, tags: vec!["t:exec-partner".into()] });
+                        }
+                    }
                     let mut hashes: Vec<u64> = vec![];
                     for p in &planned {
+                        if base_rows > MAX_BASE_ROWS_RECURSE
+                            && matches!(&p.link, Some((k, ..)) if k == "recurse-raise")
+                        {
+                            self.counters.borrow_mut().bump("recurse-raise", 4);
+                            // keep the indices of `hashes` aligned with `planned`
+                            hashes.push(0);
+                            continue;
+                        }
                         let v = &p.variant;
                         let data = match &p.data {
                             Some(f) => f(w, d),
@@ -1081,11 +1129,21 @@ impl Prop for C23 {
                                 (format!("{}{body}", l.header()), kind.clone())
                             }
                         };
+                        let partner = match (&v.wq.ir, has_min_fold_trigger(&v.query)) {
+                            (Some(ir), true) => Some(Sexp::call(
+                                "exec",
+                                vec![w.schema_sexp.clone(), data.clone(), Sexp::atom(hex(text.as_bytes())), ir.clone(), args_to_sexp(&v.args)],
+                            )),
+                            _ => None,
+                        };
                         let req = spec_exec(&w.schema_sexp, data, &text, &v.query, &v.args);
                         hashes.push(fnv64(&req.to_string()));
                         let mut tags = feats.clone();
                         tags.push(format!("t:{kind}"));
                         out.push(Case { request: req, tags });
+                        if let Some(x) = partner {
+                            out.push(Case { request: x, tags: vec!["t:exec-partner".into()] });
+                        }
                     }
                 }
             }
@@ -1095,7 +1153,7 @@ impl Prop for C23 {
     fn eval(&self, request: &Sexp) -> Option<String> {
         let (h, args) = request.as_call()?;
         match h {
-            "spec-exec" => eval_exec(h, args),
+            "spec-exec" | "exec" => eval_exec(h, args),
             _ => None,
         }
     }
@@ -1110,7 +1168,8 @@ impl Prop for C23 {
         } else {
             out.push(format!("answer:{}", e.answer.chars().take(24).collect::<String>()));
         }
-        if let Some(l) = request_text(e).as_deref().and_then(Link::parse) {
+        let is_spec = matches!(e.request.as_call(), Some(("spec-exec", _)));
+        if let Some(l) = request_text(e).as_deref().and_then(Link::parse).filter(|_| is_spec) {
             if let Some(left) = answers.get(&l.left) {
                 if left.starts_with("(rows (row") {
                     out.push(format!("nt:{}", l.kind));
@@ -1131,6 +1190,9 @@ impl Prop for C23 {
         let by_hash: HashMap<u64, &Evaluated> = evaluated.iter().map(|e| (fnv64(&e.line), e)).collect();
         let mut checked = self.checked.borrow_mut();
         for e in evaluated {
+            if !matches!(e.request.as_call(), Some(("spec-exec", _))) {
+                continue;
+            }
             let Some(text) = request_text(e) else { continue };
             let Some(l) = Link::parse(&text) else { continue };
             let stat = checked.entry(l.kind.clone()).or_default();
